@@ -2,6 +2,7 @@ package mux
 
 import (
 	"bytes"
+	"errors"
 	"fmt"
 	"runtime"
 	"sync"
@@ -9,7 +10,10 @@ import (
 	"testing"
 	"time"
 
+	"github.com/blinklabs-io/gouroboros/muxer"
 	"github.com/blinklabs-io/gouroboros/protocol"
+	"github.com/blinklabs-io/gouroboros/protocol/blockfetch"
+	pcommon "github.com/blinklabs-io/gouroboros/protocol/common"
 	"pgregory.net/rapid"
 
 	"verif/harness/internal/evi"
@@ -231,6 +235,13 @@ func runC10Case(c *c10Case) (fails []c10Fail, st c10Stats) {
 	cli.start()
 	srv.start()
 
+	progress := func() int64 {
+		n := cli.conn.nRead.Load() + srv.conn.nRead.Load()
+		for i := range cli.protos {
+			n += int64(cli.protos[i].handledCount() + srv.protos[i].handledCount())
+		}
+		return n
+	}
 	abort := make(chan struct{})
 	var abortOnce sync.Once
 	doAbort := func() { abortOnce.Do(func() { close(abort) }) }
@@ -268,8 +279,8 @@ func runC10Case(c *c10Case) (fails []c10Fail, st c10Stats) {
 				recvCount[1-pi%2] += len(ph.Msgs)
 				// the next phase's sender may only queue once it holds agency,
 				// i.e. after its handler has seen the turn message
-				if !rcv.waitHandled(recvCount[1-pi%2], patience, abort) {
-					results <- drvRes{si, "C10:not-delivered", fmt.Sprintf("protocol %d phase %d: receiver handled %d of %d messages within %v",
+				if !rcv.waitHandled(recvCount[1-pi%2], patience, abort, progress) {
+					results <- drvRes{si, "C10:not-delivered", fmt.Sprintf("protocol %d phase %d: receiver handled %d of %d messages, then no progress for %v",
 						sc.ID, pi, rcv.handledCount(), recvCount[1-pi%2], patience)}
 					return
 				}
@@ -423,6 +434,323 @@ func runC10Case(c *c10Case) (fails []c10Fail, st c10Stats) {
 	return
 }
 
+
+// ---- family 2: real block-fetch messages streamed between two real endpoints -----------
+
+type c10BFCase struct {
+	Batches  [][]int // wrapped-block sizes per requested range
+	Seeds    [][]uint64
+	Paced    bool  // the serving application waits for the send queue to drain before it would exceed the state's byte limit
+	Delays   []int // client handler delay per received message (cycled): 0 none, 1 Gosched, n>1 sleep us
+	PlanA    *rawpeer.SeqPlan
+	PlanB    *rawpeer.SeqPlan
+	planA    string
+	planB    string
+	Procs    int
+	Volume   int
+	sleepSum int
+}
+
+func (c *c10BFCase) describe() map[string]any {
+	return map[string]any{"family": "blockfetch", "batches_block_sizes": c.Batches, "paced": c.Paced, "client_handler_delays": c.Delays,
+		"client_read_plan": c.planA, "server_read_plan": c.planB, "gomaxprocs": c.Procs}
+}
+
+func genC10BFCase(rt *rapid.T, thorough bool) *c10BFCase {
+	c := &c10BFCase{}
+	c.PlanA, c.planA = genPlan(rt, "a")
+	c.PlanB, c.planB = genPlan(rt, "b")
+	max := 8 << 20
+	if thorough {
+		max = 16 << 20
+	}
+	c.Volume = volumeFor(max, c.PlanA.Chunks, c.PlanB.Chunks)
+	budget := c.Volume
+	nb := rapid.IntRange(1, 3).Draw(rt, "nBatches")
+	// bulk: one long range of mainnet-sized blocks (what a node serving a syncing peer sends)
+	bulk := c.Volume >= 8<<20 && rapid.IntRange(0, 2).Draw(rt, "bulk") == 0
+	if bulk {
+		nb = 1
+	}
+	for b := 0; b < nb; b++ {
+		n := rapid.IntRange(1, 45).Draw(rt, "nBlocks")
+		typical := rapid.SampledFrom([]int{600, 20000, 90000, 90000, 300000}).Draw(rt, "typical")
+		if bulk {
+			n = rapid.IntRange(30, 90).Draw(rt, "nBlocksBulk")
+			typical = rapid.SampledFrom([]int{90000, 200000}).Draw(rt, "typicalBulk")
+		}
+		var sizes []int
+		var seeds []uint64
+		for i := 0; i < n; i++ {
+			var s int
+			kind := rapid.IntRange(0, 5).Draw(rt, "blkKind")
+			if bulk {
+				kind = 5
+			}
+			switch kind {
+			case 0:
+				s = rapid.SampledFrom([]int{1, 65524, 65525, 65526, 65527, 65528, 65529, 65530, 131060, 131061, 131062}).Draw(rt, "blk")
+			case 1:
+				s = rapid.IntRange(1, 2000).Draw(rt, "blk")
+			default:
+				s = rapid.IntRange(typical/2+1, typical).Draw(rt, "blk")
+			}
+			if s > budget {
+				s = rapid.IntRange(1, 200).Draw(rt, "blkSmall")
+			}
+			budget -= s
+			sizes = append(sizes, s)
+			seeds = append(seeds, rapid.Uint64().Draw(rt, "seed"))
+		}
+		c.Batches = append(c.Batches, sizes)
+		c.Seeds = append(c.Seeds, seeds)
+	}
+	c.Paced = rapid.Bool().Draw(rt, "paced")
+	nd := rapid.IntRange(1, 4).Draw(rt, "nDelays")
+	slow := rapid.Bool().Draw(rt, "slowClient")
+	for i := 0; i < nd; i++ {
+		d := rapid.SampledFrom([]int{0, 0, 1}).Draw(rt, "delay")
+		if slow {
+			d = rapid.SampledFrom([]int{0, 1, 100, 400}).Draw(rt, "delay")
+		}
+		c.Delays = append(c.Delays, d)
+	}
+	msgs := 0
+	for _, b := range c.Batches {
+		msgs += len(b) + 2
+	}
+	for i := 0; i < msgs; i++ {
+		if d := c.Delays[i%len(c.Delays)]; d > 1 {
+			c.sleepSum += d
+		}
+	}
+	return c
+}
+
+type bfEnd struct {
+	P       *protocol.Protocol
+	mu      sync.Mutex
+	handled [][]byte // msg.Cbor() at the handler
+	blocks  [][]byte // WrappedBlock of every MsgBlock
+	delays  []int
+}
+
+func (e *bfEnd) handle(msg protocol.Message) error {
+	e.mu.Lock()
+	i := len(e.handled)
+	e.handled = append(e.handled, append([]byte(nil), msg.Cbor()...))
+	if b, ok := msg.(*blockfetch.MsgBlock); ok {
+		e.blocks = append(e.blocks, append([]byte(nil), b.WrappedBlock...))
+	}
+	e.mu.Unlock()
+	if len(e.delays) > 0 {
+		switch d := e.delays[i%len(e.delays)]; {
+		case d == 1:
+			runtime.Gosched()
+		case d > 1:
+			time.Sleep(time.Duration(d) * time.Microsecond)
+		}
+	}
+	return nil
+}
+
+func (e *bfEnd) count() int { e.mu.Lock(); defer e.mu.Unlock(); return len(e.handled) }
+
+func runC10BFCase(c *c10BFCase) (fails []c10Fail, st c10Stats, sendQueueHit bool) {
+	patience := c10Patience(c.Volume) + 20*time.Duration(c.sleepSum)*time.Microsecond
+	fail := func(key, what string, extra map[string]any) {
+		cs := c.describe()
+		for k, v := range extra {
+			cs[k] = v
+		}
+		fails = append(fails, c10Fail{key, what, cs})
+		c10Failed.Store(true)
+		patience = c10Patience(c.Volume)
+	}
+	a, b := rawpeer.Pipe(c.PlanA, c.PlanB)
+	ta, tb := &tapConn{Conn: a, recordReads: true}, &tapConn{Conn: b, recordReads: true}
+	ma, mb := muxer.New(ta), muxer.New(tb)
+	errA, errB := make(chan error, 10), make(chan error, 10)
+	sm := stripTimeouts(blockfetch.StateMap)
+	cli, srv := &bfEnd{delays: c.Delays}, &bfEnd{}
+	mk := func(e *bfEnd, m *muxer.Muxer, errCh chan error, role protocol.ProtocolRole) {
+		e.P = protocol.New(protocol.ProtocolConfig{
+			Name: blockfetch.ProtocolName, ProtocolId: blockfetch.ProtocolId, ErrorChan: errCh, Muxer: m,
+			Mode: protocol.ProtocolModeNodeToNode, Role: role, MessageHandlerFunc: e.handle,
+			MessageFromCborFunc: blockfetch.NewMsgFromCbor, StateMap: sm, InitialState: blockfetch.StateIdle,
+			RecvQueueSize: blockfetch.DefaultRecvQueueSize,
+		})
+		e.P.Start()
+	}
+	mk(cli, ma, errA, protocol.ProtocolRoleClient)
+	mk(srv, mb, errB, protocol.ProtocolRoleServer)
+	ma.SetDiffusionMode(muxer.DiffusionModeInitiator)
+	mb.SetDiffusionMode(muxer.DiffusionModeResponder)
+	ma.Start()
+	mb.Start()
+
+	var sentC2S, sentS2C, blocksSent [][]byte
+	progress := func() int64 { return ta.nRead.Load() + tb.nRead.Load() + int64(cli.count()+srv.count()) }
+	limit := blockfetch.StreamingMaxPendingMessageBytes
+	type res struct{ key, what string }
+	done := make(chan res, 1)
+	go func() {
+		cliWant, srvWant := 0, 0
+		for bi, sizes := range c.Batches {
+			req := blockfetch.NewMsgRequestRange(pcommon.NewPoint(uint64(bi*100+1), fill(uint64(bi), 32)), pcommon.NewPoint(uint64(bi*100+99), fill(uint64(bi)+7, 32)))
+			if err := cli.P.SendMessage(req); err != nil {
+				done <- res{"C10:blockfetch:send-error", fmt.Sprintf("RequestRange #%d: %v", bi, err)}
+				return
+			}
+			sentC2S = append(sentC2S, append([]byte(nil), req.Cbor()...))
+			srvWant++
+			if !waitCond(patience, nil, progress, func() bool { return srv.count() >= srvWant }) {
+				done <- res{"C10:blockfetch:not-delivered", fmt.Sprintf("server handled %d of %d requests", srv.count(), srvWant)}
+				return
+			}
+			var msgs []protocol.Message
+			msgs = append(msgs, blockfetch.NewMsgStartBatch())
+			for i, s := range sizes {
+				blk := fill(c.Seeds[bi][i], s)
+				blocksSent = append(blocksSent, blk)
+				msgs = append(msgs, blockfetch.NewMsgBlock(blk))
+			}
+			msgs = append(msgs, blockfetch.NewMsgBatchDone())
+			inFlight := 0
+			for mi, m := range msgs {
+				est := 16
+				if blk, ok := m.(*blockfetch.MsgBlock); ok {
+					est = len(blk.WrappedBlock) + 16
+				}
+				if c.Paced && inFlight+est > limit {
+					// a careful application: let the queue drain before exceeding the limit
+					if !srv.P.WaitSendQueueDrained(patience) {
+						done <- res{"C10:blockfetch:not-delivered", fmt.Sprintf("batch %d: send queue did not drain within %v", bi, patience)}
+						return
+					}
+					inFlight = 0
+				}
+				inFlight += est
+				if err := srv.P.SendMessage(m); err != nil {
+					if errors.Is(err, protocol.ErrProtocolViolationQueueExceeded) {
+						done <- res{"C10:blockfetch:send-queue-exceeded", fmt.Sprintf("batch %d message %d of %d (%d bytes, %d bytes queued since the batch started, state limit %d): SendMessage returned %q and the protocol was stopped; the client had handled %d messages",
+							bi, mi, len(msgs), est-16, inFlight, limit, err.Error(), cli.count())}
+						return
+					}
+					done <- res{"C10:blockfetch:send-error", fmt.Sprintf("batch %d message %d: %v", bi, mi, err)}
+					return
+				}
+				sentS2C = append(sentS2C, append([]byte(nil), m.Cbor()...))
+			}
+			cliWant += len(msgs)
+			if !waitCond(patience, nil, progress, func() bool { return cli.count() >= cliWant }) {
+				done <- res{"C10:blockfetch:not-delivered", fmt.Sprintf("batch %d: client handled %d of %d messages within %v", bi, cli.count(), cliWant, patience)}
+				return
+			}
+		}
+		done <- res{}
+	}()
+	r := <-done
+	pending := func(ch chan error) (out []string) {
+		for {
+			select {
+			case e := <-ch:
+				out = append(out, e.Error())
+			default:
+				return
+			}
+		}
+	}
+	stalled := r.key != ""
+	if stalled {
+		sendQueueHit = r.key == "C10:blockfetch:send-queue-exceeded"
+		extra := map[string]any{"client_side_errors": pending(errA), "server_side_errors": pending(errB)}
+		if r.key == "C10:blockfetch:not-delivered" {
+			extra["goroutines"] = goroutineDump()
+		}
+		fail(r.key, r.what, extra)
+	} else {
+		if e := append(pending(errA), pending(errB)...); len(e) > 0 {
+			fail("C10:blockfetch:spurious-error", fmt.Sprintf("errors reported although everything was delivered: %v", e), nil)
+		}
+	}
+	ma.Stop()
+	mb.Stop()
+	cli.P.Stop()
+	srv.P.Stop()
+	_ = a.Close()
+	_ = b.Close()
+	drainErrs(ma.ErrorChan(), 10*time.Second)
+	drainErrs(mb.ErrorChan(), 10*time.Second)
+	select {
+	case <-cli.P.DoneChan():
+	case <-time.After(10 * time.Second):
+	}
+	select {
+	case <-srv.P.DoneChan():
+	case <-time.After(10 * time.Second):
+	}
+	if sendQueueHit {
+		return // everything after the refused message is undefined
+	}
+	check := func(where string, sent, got [][]byte) {
+		if !stalled && len(got) != len(sent) {
+			fail("C10:blockfetch:count", fmt.Sprintf("%s: %d messages queued, handler saw %d", where, len(sent), len(got)), nil)
+		}
+		for i := 0; i < len(got) && i < len(sent); i++ {
+			if !bytes.Equal(got[i], sent[i]) {
+				fail("C10:blockfetch:handler-bytes", fmt.Sprintf("%s message #%d: handler saw %d bytes (fnv %x), queued %d bytes (fnv %x)", where, i, len(got[i]), fnv64(got[i]), len(sent[i]), fnv64(sent[i])), nil)
+				return
+			}
+		}
+	}
+	cli.mu.Lock()
+	srv.mu.Lock()
+	check("server->client", sentS2C, cli.handled)
+	check("client->server", sentC2S, srv.handled)
+	for i, blk := range cli.blocks {
+		if i < len(blocksSent) && !bytes.Equal(blk, blocksSent[i]) {
+			fail("C10:blockfetch:block-bytes", fmt.Sprintf("block #%d: client got %d bytes (fnv %x), server sent %d bytes (fnv %x)", i, len(blk), fnv64(blk), len(blocksSent[i]), fnv64(blocksSent[i])), nil)
+			break
+		}
+	}
+	cli.mu.Unlock()
+	srv.mu.Unlock()
+	// wire, server -> client
+	segs, _ := rawpeer.ParseSegs(ta.ReadLog())
+	var stream []byte
+	var segLens []int
+	for _, s := range segs {
+		if s.ProtoID == blockfetch.ProtocolId && s.Response {
+			if len(s.Payload) == 0 {
+				fail("C10:blockfetch:wire-segment-size", "zero-length segment on the wire", nil)
+			}
+			stream = append(stream, s.Payload...)
+			segLens = append(segLens, len(s.Payload))
+		}
+	}
+	want := bytes.Join(sentS2C, nil)
+	if !stalled && !bytes.Equal(stream, want) {
+		fail("C10:blockfetch:wire-stream", fmt.Sprintf("server->client wire carries %d bytes (fnv %x), queued encodings are %d bytes (fnv %x)", len(stream), fnv64(stream), len(want), fnv64(want)), nil)
+	}
+	st.segments = len(segLens)
+	pos, si, segEnd := 0, 0, 0
+	for _, m := range sentS2C {
+		end := pos + len(m)
+		for si < len(segLens) && segEnd+segLens[si] <= pos {
+			segEnd += segLens[si]
+			si++
+		}
+		if si < len(segLens) && end > segEnd+segLens[si] {
+			st.crossing = true
+		} else if si < len(segLens) && pos > segEnd {
+			st.sharing = true
+		}
+		pos = end
+	}
+	return
+}
+
 func TestC10(t *testing.T) {
 	rec := evi.New(t, "C10", evi.Exploration,
 		"each case: two real muxers over rawpeer.Pipe (generated read chunking/yields on both ends, generated GOMAXPROCS), 1..3 concurrent instances of the harness blob protocol (real protocol.Protocol on both sides); per instance a script of 1..4 alternating phases with 1..60 messages in total; message = CBOR array [type, bytes, pad...] built by the harness (xcbor) in a generated encoding style (definite/indefinite array, chunked byte string, non-minimal heads) with total size drawn from {2..40, 23..260, 41..5000, k*65535+-3 for k<=4, 65520..65560, 131069..131072, up to 1 MiB, 1..3 MiB (6 MiB thorough)}; per message send mode back-to-back / yield / sleep / SendMessageAndWait, pre-encoded or encoded by the engine. Non-trivial: on the observed wire some message spans >=2 segments or some segment carries >=2 messages. Distinct by (scripts incl. sizes, styles, modes; read plans).")
@@ -443,6 +771,36 @@ func TestC10(t *testing.T) {
 		}
 	}
 	rec.Check(func(rt *rapid.T) {
+		if rapid.IntRange(0, 4).Draw(rt, "familyBlockFetch") == 0 {
+			c := genC10BFCase(rt, rec.Thorough())
+			procs, restore := setProcs(rt)
+			c.Procs = procs
+			fails, st, hit := runC10BFCase(c)
+			restore()
+			rec.Eval()
+			rec.Class("family_blockfetch")
+			if c.Paced {
+				rec.Class("blockfetch_paced_sender")
+			}
+			if hit {
+				rec.Class("blockfetch_send_queue_limit_hit")
+			}
+			if st.crossing {
+				rec.Class("msg_crosses_segment")
+			}
+			if st.sharing {
+				rec.Class("segment_shared_by_msgs")
+			}
+			if st.crossing || st.sharing {
+				d := c.describe()
+				rec.NonTrivial(fmt.Sprintf("%v", d), d)
+			}
+			for _, f := range fails {
+				rec.Fail(rt, f.key, f.what, f.cs)
+			}
+			return
+		}
+		rec.Class("family_blob")
 		c := genC10Case(rt, rec.Thorough())
 		procs, restore := setProcs(rt)
 		c.Procs = procs
